@@ -69,6 +69,7 @@ type Value struct {
 	P *PtrInfo  // pointers / slices with static interior path or local base
 	F *FuncInfo // statically known function value
 	I *Value    // interface holding a statically known concrete value
+	X *Term     // integer obtained by truncating a float: its exact float value
 }
 
 // ---- layout ----
@@ -469,6 +470,9 @@ func (ex *Exec) iteValue(c *Term, a, b *Value) *Value {
 	}
 	if a.I != nil && b.I != nil && types.Identical(a.I.T, b.I.T) {
 		v.I = ex.iteValue(c, a.I, b.I)
+	}
+	if a.X != nil && b.X != nil {
+		v.X = ex.tb.Ite(c, a.X, b.X)
 	}
 	return v
 }
